@@ -494,7 +494,7 @@ def run(ctx):
         base.append(('trace', 'pop', h))
     hist = list(base)
     per_call = 2 if ctx.quick else None
-    budget = 450 if ctx.quick else 20000
+    budget = 450 if ctx.quick else 14000
     for scn, src, h in base:
         if budget <= 0:
             break
